@@ -44,7 +44,7 @@ func c13Authenticated(br *Browser) (bool, string, int, error) {
 
 func CheckC13(l *Lab, verifDir string) int {
 	rep := NewReport("C13", l.Tier, l.Seed, "exploration", verifDir)
-	rep.Rule = "OpenID login flows against real gateway processes with both session stores (cookie, file): successful callbacks with each user-name claim and many identity contents (then 20 follow-up downloads interleaved with other sessions must keep returning the same user), and scripted failures at every point (unknown state, state of another instance, state older than 125 s, also after failing / succeeding callbacks used it in between [thorough only], token endpoint 400/500/connection reset, missing id_token, bad signature, wrong issuer, wrong audience, expired ID token, alg none, HS256 under the client secret, no user-name claim, non-string claim) after which the jar with all cookies the failing exchange set must not be authenticated; every single-character substitution (sampled alternatives in quick), truncation and extension of an authenticated session cookie and the cookie of an instance with other keys must not yield a connection file unless the mutant decodes to the same bytes. authenticated(jar) := GET /connect returns 200 with a connection file. non-trivial = the callback or download was answered; distinct = store x scenario x outcome"
+	rep.Rule = "OpenID login flows against real gateway processes with both session stores (cookie, file): successful callbacks with each user-name claim and many identity contents (then 20 follow-up downloads interleaved with other sessions must keep returning the same user), and scripted failures at every point (unknown state, state of another instance, state older than 125 s, also after failing / succeeding callbacks used it in between [thorough only], token endpoint 400/500/connection reset, missing id_token, bad signature, wrong issuer, wrong audience, ID token expired 2 h / 4 min / 20 s ago, alg none, HS256 under the client secret, no user-name claim, non-string claim) after which the jar with all cookies the failing exchange set must not be authenticated; every single-character substitution (sampled alternatives in quick), truncation and extension of an authenticated session cookie and the cookie of an instance with other keys must not yield a connection file unless the mutant decodes to the same bytes. authenticated(jar) := GET /connect returns 200 with a connection file. non-trivial = the callback or download was answered; distinct = store x scenario x outcome"
 	if l.Quick() {
 		rep.Assume("quick tier skips the 125 s state-expiry probe (run in the thorough tier)")
 	}
@@ -158,6 +158,7 @@ func c13Store(l *Lab, rep *Report, idp *IdP, store string) {
 		{"token endpoint resets", CodeSpec{User: "u1", TokenMode: "reset"}, ""}, {"no id_token", CodeSpec{User: "u1", TokenMode: "no_id_token"}, ""},
 		{"bad signature", CodeSpec{User: "u1", TokenMode: "bad_sig"}, ""}, {"wrong issuer", CodeSpec{User: "u1", TokenMode: "wrong_iss"}, ""},
 		{"wrong audience", CodeSpec{User: "u1", TokenMode: "wrong_aud"}, ""}, {"expired id token", CodeSpec{User: "u1", TokenMode: "expired"}, ""},
+		{"id token expired 20 s ago", CodeSpec{User: "u1", TokenMode: "expired_20s"}, ""}, {"id token expired 4 min ago", CodeSpec{User: "u1", TokenMode: "expired_4m"}, ""},
 		{"alg none", CodeSpec{User: "u1", TokenMode: "alg_none"}, ""}, {"HS256 under the client secret", CodeSpec{User: "u1", TokenMode: "hs256_secret"}, ""},
 		{"no user-name claim", CodeSpec{User: "u1", TokenMode: "no_username"}, ""}, {"non-string user-name claim", CodeSpec{User: "u1", TokenMode: "nonstring_username"}, ""},
 		{"unknown code", CodeSpec{}, "code-unknown"},
@@ -260,6 +261,47 @@ func c13Store(l *Lab, rep *Report, idp *IdP, store string) {
 		rep.Eval(HashStr(store, "restoration", len(sessions)))
 	}
 
+	// ---- the cookies a browser held *before* its login completed do not become a logged-in
+	// session through that login (cookie store: the state lives in the cookie, so the pre-login
+	// cookie is a different, unauthenticated session; file store: same session id, not judged)
+	if store == "cookie" {
+		for i := 0; i < l.Pick(4, 20); i++ {
+			br := NewBrowser(a.gw, "")
+			state, _, err := br.BeginLogin("")
+			if err != nil || state == "" {
+				rep.Inconclusive("pre-login cookie probe: no state")
+				continue
+			}
+			pre := map[string]string{}
+			for k, v := range br.Cookies {
+				pre[k] = v
+			}
+			code := idp.NewCode(CodeSpec{User: fmt.Sprintf("prelogin-user-%d", i)})
+			cb, err := br.Do("GET", "/callback?state="+url.QueryEscape(state)+"&code="+url.QueryEscape(code), nil)
+			if err != nil || cb.Status != 302 {
+				rep.Inconclusive("pre-login cookie probe: login did not complete")
+				continue
+			}
+			if ok, _, _, _ := c13Authenticated(br); !ok {
+				rep.Inconclusive("pre-login cookie probe: session not authenticated after its own login")
+				continue
+			}
+			same := true
+			for k, v := range br.Cookies {
+				if pre[k] != v {
+					same = false
+				}
+			}
+			old := NewBrowser(a.gw, "")
+			old.Cookies = pre
+			ok, user, st, _ := c13Authenticated(old)
+			rep.Eval(HashStr(store, "pre-login-cookie", ok, same))
+			rep.Count("pre_login_cookie_probes", 1)
+			if ok && !same {
+				rep.Violate("C13/pre-login-cookie-authenticated/"+store, fmt.Sprintf("the cookies a browser held before its callback (a different cookie value than after it) are served as the logged-in session of %q (status %d)", user, st), nil)
+			}
+		}
+	}
 	// ---- concurrent sessions: visitors who never log in and users logging in at the same time
 	c13Concurrent(l, rep, a, idp, store)
 	// ---- cookie integrity
